@@ -191,7 +191,7 @@ def _run_case(case, ctx):
                     break
             except Exception as e:
                 ctx.violation("disk-roundtrip", form + ".same-object", "READER-RAISED:%s:%s" % (type(e).__name__, str(e)[:40].split(",")[0].split(" got")[0]),
-                              dict(wit, error=str(e)[:100], after=len(stored)), prop="C07")
+                              dict(wit, error=str(e)[:100], after=len(stored)), prop="C09" if ctx.prop == "C09" else "C07")
                 break
         written = bytes(d.get_buffer())
         wit["order"] = case["order"]
